@@ -138,7 +138,7 @@ def byz_response(tape, port2):
     if k == 3:
         st = tape.pick("rstatus", [b"301 Moved", b"302 Found", b"303 See Other", b"307 Temp"])
         loc = tape.pick("loc", [None, b"http://[::1/", b"http://h:99999/x", b"http://h:abc/", b"", b"/rel/path", b"//", b"http://127.0.0.1:%d/n" % port2,
-                                b"\xff\xfe", b"http://"])
+                                b"\xff\xfe", b"http://", b"http://nonexistent.invalid/x", b"http://a..b/", b"http://" + b"x" * 70 + b".example/y", b"//http/z"])
         hdr = b"" if loc is None else b"Location: " + loc + b"\r\n"
         return b"HTTP/1.1 " + st + b"\r\n" + hdr + b"Content-Length: 0\r\n\r\n", "redirect" + ("-noloc" if loc is None else ""), False
     if k == 4:
